@@ -697,7 +697,10 @@ func (c *Conn) recv(ctx context.Context) error {
 		if err := framer.readFrame(c, &head); err != nil {
 			return err
 		}
-		go c.session.handleEvent(framer)
+		// parse and queue the event in the reader goroutine: with a goroutine per frame two events of one
+		// node could reach the debouncer in the wrong order (handleEvent only parses the frame and appends
+		// it to the debouncer's buffer, it does not block)
+		c.session.handleEvent(framer)
 		return nil
 	} else if head.stream <= 0 {
 		// reserved stream that we dont use, probably due to a protocol error
